@@ -53,7 +53,7 @@ PROPS = {
     },
     "C01": {
         "lean_modules": ["InTotoModel.Props.C01", "InTotoModel.Props.NonVacuity", "InTotoModel.Props.Spec"],
-        "claim": "verify = ok implies: keys non-empty, pairwise distinct intrinsic ids (no alias), the block is a layout, every supplied key has a valid signature attributed to its own id over exactly the block's content, and that content is what all later stages enforce; with the four failure clauses as corollaries. Lean theorems for every environment, iteration order and fuel; tied to in_toto_verify by fault-injected end-to-end scenarios with all key schemes.",
+        "claim": "Over all key sets and signature lists (Props/Spec.lean, Lemmas/OwnersOnly.lean): the order of the supplied keys is immaterial, and a signature entry under the id of a key that was not supplied - wherever it stands, whatever it holds - neither helps nor hurts. verify = ok implies: keys non-empty, pairwise distinct intrinsic ids (no alias), the block is a layout, every supplied key has a valid signature attributed to its own id over exactly the block's content, and that content is what all later stages enforce; with the four failure clauses as corollaries. Lean theorems for every environment, iteration order and fuel; tied to in_toto_verify by fault-injected end-to-end scenarios with all key schemes.",
         "level_note": "Trusted: Lean kernel; env.valid abstracts ring + signed-text derivation (C11); 'a post-signing change invalidates the signature' composes with C05 and the unforgeability of the schemes.",
         "technique": "Lean 4 theorems about an executable model + model/implementation correspondence check (differential run with property oracle)",
         "rule": "cases = end-to-end scenarios: a valid layout + link directory (real keys of every scheme, real signatures, optional sub-layouts and inspections) materialised in a scratch directory, usually with one injected fault whose effect is known by construction; ops = verify(scenario with constructed signature validity, observed inspection outcomes) run through the real in_toto_verify with a pinned clock; the model is evaluated under two opposite hash-map iteration orders (delegated evidence visited as the code does) and the sequences of inspection commands are compared in order, in failing runs too; distinct = distinct scenario; all are non-trivial (they get past argument parsing into stage 1)",
@@ -151,7 +151,7 @@ PROPS = {
     },
     "C13": {
         "lean_modules": ["InTotoModel.Props.C13", "InTotoModel.Props.NonVacuity", "InTotoModel.Props.Spec"],
-        "claim": "c13_full: for every environment, layout block, caller keys, link directory, name and fuel, and any two families of hash-map iteration orders (each only assumed to return a rearrangement), the model's verification succeeds under one iff it succeeds under the other, with the same summary link; failure is always an error, never a panic, and is order independent too. Proved through all twelve stages (Lemmas/Determinism.lean): loops as order-free filters / all-or-nothing maps, tables of two runs related by 'same keys, values up to permutation', every consumer reads tables by lookup only. The three order-sensitive decisions (signature counting with early exit, agreement with an arbitrary reference link, representative = smallest key id) are separate theorems. Non-vacuity: a concrete scenario (threshold-2 step, delegated sub-layout, MATCH rule, inspection) is kernel-checked to verify under two different orders. The driver evaluates every generated scenario under two opposite orders and the real run is repeated with fresh hash seeds.",
+        "claim": "c13_order_of_the_supplied_keys_does_not_matter: the caller's key map is read as a set. c13_full: for every environment, layout block, caller keys, link directory, name and fuel, and any two families of hash-map iteration orders (each only assumed to return a rearrangement), the model's verification succeeds under one iff it succeeds under the other, with the same summary link; failure is always an error, never a panic, and is order independent too. Proved through all twelve stages (Lemmas/Determinism.lean): loops as order-free filters / all-or-nothing maps, tables of two runs related by 'same keys, values up to permutation', every consumer reads tables by lookup only. The three order-sensitive decisions (signature counting with early exit, agreement with an arbitrary reference link, representative = smallest key id) are separate theorems. Non-vacuity: a concrete scenario (threshold-2 step, delegated sub-layout, MATCH rule, inspection) is kernel-checked to verify under two different orders. The driver evaluates every generated scenario under two opposite orders and the real run is repeated with fresh hash seeds.",
         "level_note": "Trusted: Lean kernel; the model's tie to verifylib.rs is the differential run. c13_complete_result_is_determined: under the iteration orders of the code (steps in layout order, evidence in key-id order - fix 0f00e75 - all hash-map iterations arbitrary) the complete result is determined: verdict, error stage, summary and the sequence of inspection commands, in failing runs too. What a command does to the working directory is the operating system's; that it is a function of the directory it finds is assumed, not modelled.",
         "technique": "Lean 4 theorems about an executable model + model/implementation correspondence check (differential run with property oracle)",
         "rule": "cases = end-to-end scenarios: a valid layout + link directory (real keys of every scheme, real signatures, optional sub-layouts and inspections) materialised in a scratch directory, usually with one injected fault whose effect is known by construction; ops = verify(scenario with constructed signature validity, observed inspection outcomes) run through the real in_toto_verify with a pinned clock; the model is evaluated under two opposite hash-map iteration orders (delegated evidence visited as the code does) and the sequences of inspection commands are compared in order, in failing runs too; distinct = distinct scenario; all are non-trivial (they get past argument parsing into stage 1)",
